@@ -1036,3 +1036,66 @@ Proof.
   destruct W as [Hnd Hall]. destruct (Hall id c L) as [Hc _].
   exact (sweep_iff (cf_max_idle cf) (f_ch st0) id c Hnd Hmi L Hc).
 Qed.
+
+(* ---- every candidate of the second loop was found idle by the first loop ------------------------ *)
+Definition cand_list (p : spc) : list Z :=
+  match p with
+  | SCollect _ _ acc => acc
+  | SLoop2 _ cands => cands
+  | SInb _ id rest | SOutb _ id rest | SRelay _ id rest | SRecheck _ id rest | SClose _ id rest => id :: rest
+  | _ => []
+  end.
+
+Lemma fstep_cands_step fx cf st st' x : fstep fx cf st FStep = Some st' ->
+  In x (cand_list (f_pc st')) -> In x (cand_list (f_pc st)) /\ pc_now (f_pc st') = pc_now (f_pc st).
+Proof.
+  intros H Hx. finv H; cbn [f_pc cand_list pc_now In] in *; try contradiction; auto; try tauto.
+Qed.
+
+Definition looked (fx : bool) (cf : config) (t0 : Z) (ls : list flab) (now x : Z) : Prop :=
+  exists pb tl0 tl1, ls = pb ++ FBegin :: tl0 ++ FLook x :: tl1 /\ ~ In FBegin tl0 /\ ~ In FBegin tl1 /\
+    now = clock t0 (evs_of pb) /\
+    conn_at fx cf t0 (pb ++ FBegin :: tl0) x (fun c => idle_candidate now (cf_max_idle cf) c = true).
+
+Lemma looked_snoc fx cf t0 ls now x b : b <> FBegin -> looked fx cf t0 ls now x -> looked fx cf t0 (ls ++ [b]) now x.
+Proof.
+  intros Hb (pb & tl0 & tl1 & -> & N0 & N1 & Hn & Hc). exists pb, tl0, (tl1 ++ [b]).
+  split; [repeat (rewrite <- app_assoc; cbn [app]); reflexivity|]. split; [exact N0|]. split; [|auto].
+  intros Hin. apply in_app_iff in Hin as [Hin|[Hin|[]]]; [exact (N1 Hin)|]. apply Hb. now symmetry.
+Qed.
+
+Lemma cands_looked fx cf t0 : forall ls st now x, frun fx cf (finit t0) ls = Some st ->
+  pc_now (f_pc st) = Some now -> In x (cand_list (f_pc st)) -> looked fx cf t0 ls now x.
+Proof.
+  induction ls as [|b ls IH] using rev_ind; intros st now x H P Hx.
+  - cbn [frun] in H. injection H as <-. discriminate P.
+  - apply frun_snoc in H as (st1 & H1 & Hb). destruct b as [e| | |i|].
+    + (* an event of another goroutine *)
+      pose proof Hb as Hb'. apply fstep_env in Hb' as (_ & Hp & _). rewrite Hp in *.
+      apply looked_snoc; [discriminate|]. now apply (IH st1).
+    + finv Hb. cbn [f_pc cand_list] in Hx. contradiction.
+    + finv Hb. cbn [f_pc cand_list] in Hx. contradiction.
+    + (* a look: either an older candidate or the one found idle just now *)
+      assert (P1 : pc_now (f_pc st1) = Some now) by (eapply fstep_pc_now; [|exact Hb|exact P]; discriminate).
+      assert (Hnew : forall c, lookup i (ch_conns (f_ch st1)) = Some c -> idle_candidate now (cf_max_idle cf) c = true ->
+                looked fx cf t0 (ls ++ [FLook i]) now i).
+      { intros c L Hi. destruct (now_prov fx cf t0 ls st1 now H1 P1) as (pb & tl & -> & Hn & Hc).
+        exists pb, tl, []. rewrite <- app_assoc. cbn [app]. split; [reflexivity|]. split; [exact Hn|]. split; [intros []|].
+        split; [exact Hc|]. exists st1, c. auto. }
+      assert (Hold : In x (cand_list (f_pc st1)) -> looked fx cf t0 (ls ++ [FLook i]) now x).
+      { intros Hin. apply looked_snoc; [discriminate|]. now apply (IH st1). }
+      finv Hb; cbn [f_pc cand_list pc_now] in *; injection P as <-; try (now apply Hold).
+      apply in_app_iff in Hx as [Hx|[<-|[]]]; [now apply Hold|].
+      apply (Hnew c eq_refl). rewrite <- gen_fine_idle. assumption.
+    + destruct (fstep_cands_step fx cf st1 st x Hb Hx) as [Hx1 Hp]. rewrite Hp in P.
+      apply looked_snoc; [discriminate|]. now apply (IH st1).
+Qed.
+
+(* ... in particular the connection the poller is about to close: it was collected by a FLook
+   of this same sweep, at which it was idle for MaxIdleTime against the sweep's clock value
+   (both code versions; without the re-check this is the only thing known about its idleness) *)
+Theorem fine_close_looked fx cf t0 ls st now id rest :
+  frun fx cf (finit t0) ls = Some st -> f_pc st = SClose now id rest -> looked fx cf t0 ls now id.
+Proof.
+  intros H P. apply (cands_looked fx cf t0 ls st now id H); rewrite P; [reflexivity|now left].
+Qed.
